@@ -82,10 +82,10 @@ var c07FanInShapes = map[string]string{
 }
 
 var c07LiftShapes = map[string]string{
-	"if op.PartialsIn || op.PartialsOut { return } ; for k := range paths { partial := copyOp(op).(*dag.Summarize) partial.PartialsOut = true paths[k].Append(partial) } ; op.PartialsIn = true ; for k := range op.Keys { op.Keys[k].RHS = op.Keys[k].LHS }":                                                                                                                                                                                                                                                     "partials",
-	"if len(op.Args) != 1 { return } ; if merge != nil { mergeKey, ok := sortKeyOfExpr(merge.Expr, merge.Order) if !ok { return } sortKey := sortKeysOfSort(op) if !sortKey.Equal(order.SortKeys{mergeKey}) { return } } ; for k := range paths { paths[k].Append(copyOp(op)) } ; if merge == nil { merge = &dag.Merge{ Kind: \"Merge\", Expr: op.Args[0].Key, Order: op.Args[0].Order, } if egress == 2 { ops[1] = merge ops[2] = dag.PassOp } else { ops[egress] = merge } } else { ops[egress] = dag.PassOp }": "sort",
+	"if op.PartialsIn || op.PartialsOut { return } ; for k := range paths { partial := copyOp(op).(*dag.Summarize) partial.PartialsOut = true paths[k].Append(partial) } ; op.PartialsIn = true ; for k := range op.Keys { op.Keys[k].RHS = op.Keys[k].LHS }":                                                                                                                                                                                                                                                                                                                                                                 "partials",
+	"if len(op.Args) != 1 { return } ; if op.Reverse || op.NullsFirst || op.Args[0].Order == order.Desc { return } ; if merge != nil { mergeKey, ok := sortKeyOfExpr(merge.Expr, merge.Order) if !ok { return } sortKey := sortKeysOfSort(op) if !sortKey.Equal(order.SortKeys{mergeKey}) { return } } ; for k := range paths { paths[k].Append(copyOp(op)) } ; if merge == nil { merge = &dag.Merge{ Kind: \"Merge\", Expr: op.Args[0].Key, Order: op.Args[0].Order, } if egress == 2 { ops[1] = merge ops[2] = &dag.Pass{Kind: \"Pass\"} } else { ops[egress] = merge } } else { ops[egress] = &dag.Pass{Kind: \"Pass\"} }": "sort",
 	"for k := range paths { paths[k].Append(copyOp(op)) }": "copy-keep",
-	"if merge != nil { mergeKey, err := o.propagateSortKeyOp(merge, []order.SortKeys{nil}) if err != nil || mergeKey[0].IsNil() { return } key, err := o.propagateSortKeyOp(op, mergeKey) if err != nil || !key[0].Equal(mergeKey[0]) { return } } ; for k := range paths { paths[k].Append(copyOp(op)) } ; ops[egress] = dag.PassOp": "lift-if-key-kept",
+	"if merge != nil { mergeKey, err := o.propagateSortKeyOp(merge, []order.SortKeys{nil}) if err != nil || mergeKey[0].IsNil() { return } key, err := o.propagateSortKeyOp(op, mergeKey) if err != nil || !key[0].Equal(mergeKey[0]) { return } } ; for k := range paths { paths[k].Append(copyOp(op)) } ; ops[egress] = &dag.Pass{Kind: \"Pass\"}": "lift-if-key-kept",
 }
 
 var c07DemandOpShapes = map[string]string{
